@@ -567,10 +567,25 @@ func c07r6(c *Ctx, id string) {
 // may be a method of its own or a loop inside the gate; in both cases it is recognised by the persistence
 // test (checkPersistSeqNo) it polls.
 func gateOAE(c *Ctx, id string, oi *obsInfo, aspect string) {
+	for _, g := range oi.gates {
+		gateOAEOf(c, id, oi, aspect, g)
+	}
+}
+
+func gateOAEOf(c *Ctx, id string, oi *obsInfo, aspect string, gate *ssa.Function) {
 	w := c.W
-	gate := oi.gate
 	recv := gate.Params[0].Name()
-	seqP, ctlP := gate.Params[1].Name(), gate.Params[2].Name()
+	seqP, ctlP := gate.Params[1].Name(), ""
+	fixedCtl, split := oi.gateCtl[gate], len(gate.Params) < 3
+	if !split {
+		ctlP = gate.Params[2].Name()
+	}
+	isCtl := func(st *State) bool {
+		if split {
+			return fixedCtl
+		}
+		return st.B(ctlP)
+	}
 	dis := recv + ".config.RollbackMitigation.Disabled"
 	chk, need := oi.persist, oi.need
 	c.need((chk != nil || oi.waitFn != nil) && need != nil, id, "the persistence test polled under the gate and the catch-up filter the gate consults (checkPersistSeqNo / needCatchup)")
@@ -609,7 +624,11 @@ func gateOAE(c *Ctx, id string, oi *obsInfo, aspect string) {
 		}
 	}
 	closedAtom := recv + "." + oi.fClosed
-	h := &Harness{Fn: gate, Bools: append([]string{dis, ctlP, "need"}, extra...), Groups: []Group{{Atoms: []string{seqP}, Unsigned: true}},
+	gateBools := []string{dis, "need"}
+	if !split {
+		gateBools = append(gateBools, ctlP)
+	}
+	h := &Harness{Fn: gate, Bools: append(gateBools, extra...), Groups: []Group{{Atoms: []string{seqP}, Unsigned: true}},
 		NoInline: noinl, Quiet: []string{"time.Sleep"},
 		Valid: func(st *State) bool {
 			// the filter aspect (what reaches the consumer) is about a stream that is open
@@ -659,14 +678,14 @@ func gateOAE(c *Ctx, id string, oi *obsInfo, aspect string) {
 		if aspect == "wait" {
 			return ""
 		}
-		if st.B(ctlP) && nn > 0 {
+		if isCtl(st) && nn > 0 {
 			return "catch-up state consulted (and possibly consumed) for a control event"
 		}
-		if !st.B(ctlP) && nn != 1 {
+		if !isCtl(st) && nn != 1 {
 			return fmt.Sprintf("catch-up filter consulted %d times for a data event", nn)
 		}
 		b, ok := out.Ret[0].(avBool)
-		want := st.B(ctlP) || !st.B("need")
+		want := isCtl(st) || !st.B("need")
 		if !ok || b.b != want {
 			return fmt.Sprintf("returns %s, expected isControl ∨ ¬needCatchup = %v", avString(out.Ret[0]), want)
 		}
@@ -691,7 +710,7 @@ func gateArgsRule(c *Ctx, id string, oi *obsInfo) {
 			continue
 		}
 		n++
-		got := w.Origin(g.Common().Args[2])
+		got := oi.gateCtlOrigin(w, g)
 		want := "const(false)"
 		if control[name] {
 			want = "const(true)"
